@@ -264,6 +264,13 @@ class Parser:
 
             return compiled_examples
 
+        def compile_and_save(hints_file: Path, hints_file_compiled: Path):
+            compiled_hints = compile_errors(hints_file)
+            with open(hints_file_compiled, "w") as f:
+                serializable = {str(k): v for k, v in compiled_hints.items()}
+                json.dump(serializable, f)
+            return compiled_hints
+
         self._in_error_hints = True
         grammar_file = Path(self.grammar.file_path)
         hints_file = grammar_file.with_suffix(".pge")
@@ -276,14 +283,16 @@ class Parser:
                 or hints_file.stat().st_mtime > hints_file_compiled.stat().st_mtime
             ):
                 # Compilation is needed
-                compiled_hints = compile_errors(hints_file)
-                with open(hints_file_compiled, "w") as f:
-                    serializable = {str(k): v for k, v in compiled_hints.items()}
-                    json.dump(serializable, f)
+                compiled_hints = compile_and_save(hints_file, hints_file_compiled)
             else:
-                with open(hints_file_compiled) as f:
-                    loaded = json.load(f)
+                try:
+                    with open(hints_file_compiled) as f:
+                        loaded = json.load(f)
                     compiled_hints = {ast.literal_eval(k): v for k, v in loaded.items()}
+                except ValueError:
+                    # Not a complete JSON document (e.g. it was left behind by
+                    # an interrupted write). Compile again.
+                    compiled_hints = compile_and_save(hints_file, hints_file_compiled)
 
         del self._in_error_hints
         return compiled_hints
